@@ -37,6 +37,8 @@ class Eval:
         self.names = {}
         self.last_env = {}
         self.bound = {}  # name -> every term ever bound to a local of that name (including branch-local lets)
+        self.out = []    # output effects of printers: (conds, loops, ('write', template, args) | ('emit', callee, args))
+        self.loops = []
 
     # ------------------------------------------------------------------ entry points
     def function(self, body, args=None, depth=0):
@@ -49,6 +51,9 @@ class Eval:
         saved_c = self.conds
         self.returns = []
         self.conds = []
+        if depth == 0:
+            self.out = []
+            self.loops = []
         v = self.expr(body["body"], env, depth)
         rets = self.returns
         self.returns = saved
@@ -176,7 +181,9 @@ class Eval:
                         for lid in self.mutated_locals(body):
                             if lid in env and not (isinstance(env[lid], tuple) and env[lid][:1] == ("acc",)):
                                 env[lid] = ("acc", env[lid])
+                        self.loops.append(it)
                         self.effect(body, env, depth)
+                        self.loops.pop()
                     return
             if str(e.get("src", "")).startswith("TryDesugar"):
                 self.expr(e, env, depth)
@@ -272,6 +279,14 @@ class Eval:
                 return self.vec_macro(e, env, depth)
             if mac == "format":
                 return ("format", hq.macro_template(e["mac_src"]), tuple(self.fmt_args(e, env, depth)))
+            if mac in ("write", "writeln"):
+                t = hq.macro_template(e["mac_src"])
+                if t is None:
+                    # write!(f, include_str!(..)) and friends: keep the raw first argument
+                    t = "<" + (hq.macro_args(e["mac_src"])[1] if len(hq.macro_args(e["mac_src"])) > 1 else "?") + ">"
+                w = ("write", t + ("\n" if mac == "writeln" else ""), tuple(self.fmt_args(e, env, depth)))
+                self.out.append((tuple(self.conds), tuple(self.loops), w))
+                return w
             if mac in ("unreachable", "panic", "todo", "unimplemented"):
                 return ("panic", mac)
             if mac == "matches":
@@ -496,6 +511,8 @@ class Eval:
     def named_call(self, e, generic, resolved, args, depth):
         name = short(generic)
         target = resolved or generic
+        if name in ("Display::fmt", "Precedence::fmt_unary", "Precedence::fmt_binary", "Precedence::fmt_operator", "Debug::fmt"):
+            self.out.append((tuple(self.conds), tuple(self.loops), ("emit", name, tuple(args[:-1]))))
         # iterator combinators over closures: keep symbolic but apply ctor functions
         if name in ("Iterator::map", "Option::map", "Iterator::flat_map", "Iterator::filter_map") and len(args) == 2:
             f = args[1]
